@@ -18,6 +18,22 @@ PANS = ('<?xml version="1.0"?>\n<config><devices><entry><vsys><entry name="vsys1
         '</rules></security></rulebase>\n<service-group><entry name="sg1"><members><member>sg1</member></members></entry></service-group>\n'
         '</entry></vsys></entry></devices></config>\n')
 
+def pan2(members, groups='', svc='any', sgroups=''):
+    """a vsys with one rule whose source has the given members; address-groups / service-groups as given"""
+    return ('<?xml version="1.0"?>\n<config><devices><entry name="localhost.localdomain"><vsys><entry name="vsys1"><rulebase><security><rules>\n'
+            '<entry name="r1"><action>allow</action><from><member>z1</member></from><to><member>z2</member></to><source>%s</source>'
+            '<destination><member>any</member></destination><service><member>%s</member></service><application><member>any</member></application>'
+            '<rule-type>interzone</rule-type></entry>\n</rules></security></rulebase>\n'
+            '<address><entry name="IP_10.1.1.10"><ip-netmask>10.1.1.10/32</ip-netmask></entry><entry name="IP_10.1.1.20"><ip-netmask>10.1.1.20/32</ip-netmask></entry>'
+            '<entry name="IP_10.1.1.30"><ip-netmask>10.1.1.30/32</ip-netmask></entry></address>\n'
+            '<address-group>%s</address-group>\n<service><entry name="tcp 80"><protocol><tcp><port>80</port></tcp></protocol></entry></service>\n'
+            '<service-group>%s</service-group>\n</entry></vsys></entry></devices></config>\n'
+            % (''.join('<member>%s</member>' % m for m in members), svc, groups, sgroups))
+
+
+G0 = '<entry name="g0"><static><member>IP_10.1.1.10</member><member>IP_10.1.1.20</member></static></entry>'
+SG0 = '<entry name="sg0"><members><member>tcp 80</member></members></entry>'
+
 NRULE = ('{"resource_type":"Rule","id":"r1","scope":["/infra/tier-0s/v1"],"direction":"OUT","ip_protocol":"IPV4","sequence_number":20,"action":"ALLOW",'
          '"source_groups":["/infra/domains/default/groups/Netspoc-g0"],"destination_groups":["10.2.1.10"],"services":["ANY"]}')
 
@@ -88,6 +104,14 @@ CASES = [
     ('panos-service-group-member-of-itself', 'PAN-OS', '', PANS, None),
     ('panos-empty-devices-with-raw', 'PAN-OS', '<?xml version="1.0"?>\n<config><devices></devices></config>\n',
      '<?xml version="1.0"?>\n<config><devices></devices></config>\n', PAN % ('g1', '10.1.1.1', '<entry name="h"><static><member>10.1.1.1</member></static></entry>')),
+    # a name that is a group on one side and undefined (or a plain address) on the other, in a list of several members
+    ('panos-group-undefined-in-netspoc', 'PAN-OS', pan2(['g0', 'IP_10.1.1.30'], G0), pan2(['g0', 'IP_10.1.1.30']), None),
+    ('panos-group-undefined-on-device', 'PAN-OS', pan2(['g0', 'IP_10.1.1.30']), pan2(['g0', 'IP_10.1.1.30'], G0), None),
+    ('panos-group-name-is-address-in-netspoc', 'PAN-OS', pan2(['IP_10.1.1.10', 'IP_10.1.1.30'], '<entry name="IP_10.1.1.10"><static><member>IP_10.1.1.20</member></static></entry>'),
+     pan2(['IP_10.1.1.10', 'IP_10.1.1.30']), None),
+    ('panos-single-group-undefined-in-netspoc', 'PAN-OS', pan2(['g0'], G0), pan2(['g0']), None),
+    ('panos-service-group-undefined-in-netspoc', 'PAN-OS', pan2(['any'], '', 'sg0', SG0), pan2(['any'], '', 'sg0'), None),
+    ('panos-service-group-undefined-on-device', 'PAN-OS', pan2(['any'], '', 'sg0'), pan2(['any'], '', 'sg0', SG0), None),
     ('info-null', 'INFO', 'null', '', None),
     ('info-array', 'INFO', '[]', '', None),
     ('info-empty-object', 'INFO', '{}', '', None),
